@@ -32,14 +32,16 @@ import (
 	"github.com/dolthub/dolt/go/libraries/doltcore/dbfactory"
 	"github.com/dolthub/dolt/go/store/chunks"
 	"github.com/dolthub/dolt/go/store/hash"
+	"github.com/dolthub/dolt/go/store/prolly"
 	"github.com/dolthub/dolt/go/store/types"
+	"github.com/dolthub/dolt/go/store/val"
 
 	"verif/harness/internal/hx"
 	"verif/harness/internal/wg"
 )
 
 type kase struct {
-	Kind    string `json:"kind"` // history | crafted
+	Kind    string `json:"kind"` // history | crafted | rewrite
 	Seed    uint64 `json:"seed"`
 	Rows    int    `json:"rows"`
 	Full    bool   `json:"full"`
@@ -148,7 +150,14 @@ func (v *env) modelKept(m *hx.Model, cs chunks.ChunkStore, reach hash.HashSet, r
 }
 
 func (v *env) run(k kase) {
-	out := hx.Recover(func() string { v.one(k); return "" })
+	out := hx.Recover(func() string {
+		if k.Kind == "rewrite" {
+			v.rewriteCase(k)
+		} else {
+			v.one(k)
+		}
+		return ""
+	})
 	if out != "" {
 		v.e.Rep.Violate("panic:"+k.Kind, out, k)
 	}
@@ -380,6 +389,135 @@ func (v *env) one(k kase) {
 	}
 }
 
+// rewriteCase (chunk-store level): a session writes a value (a prolly map of N tuples: one leaf, or
+// a multi-level tree) through the NodeStore WITHOUT committing anything that references it — the
+// chunks sit in the shared memtable; the collection starts; parked at a yield point of ValueStore.GC
+// the session writes the SAME value again (same content, same addresses: every Put finds the chunk
+// already in the memtable); after the collection the session commits a reference to it (statistics
+// ref → Statistic message → map root).  Property: the Put during the collection succeeded, so the
+// value must be present after it, the commit must succeed, and the value must be readable after
+// reopening the database.
+func (v *env) rewriteCase(k kase) {
+	e := v.e
+	ctx := v.ctx
+	v.n++
+	dir := filepath.Join(e.Scratch, fmt.Sprintf("repo%d", v.n))
+	os.MkdirAll(dir, 0o755)
+	defer os.RemoveAll(dir)
+	defer dbfactory.CloseAllLocalDatabases()
+	r, err := wg.NewRepo(ctx, dir)
+	if err != nil {
+		e.Rep.Disagree(k, "new repo: "+err.Error(), "", "generator")
+		return
+	}
+	if err := r.Exec("CREATE TABLE seedt (id INT PRIMARY KEY, t TEXT)"); err == nil {
+		r.Exec("INSERT INTO seedt VALUES (1, 'x'), (2, 'y')")
+		r.Exec("CALL dolt_commit('-Am', 'seed')")
+	}
+	ns := r.DDB.NodeStore()
+	kd := val.NewTupleDescriptor(val.Type{Enc: val.Int64Enc})
+	vd := val.NewTupleDescriptor(val.Type{Enc: val.Int64Enc}, val.Type{Enc: val.StringEnc, Nullable: true})
+	rng := hx.NewRng(k.Seed)
+	salt := rng.Intn(1 << 30)
+	build := func() (prolly.Map, error) {
+		kb, vb := val.NewTupleBuilder(kd, ns), val.NewTupleBuilder(vd, ns)
+		tups := make([]val.Tuple, 0, 2*k.Rows)
+		for i := 0; i < k.Rows; i++ {
+			kb.PutInt64(0, int64(i))
+			kt, err := kb.Build(ctx, ns.Pool())
+			if err != nil {
+				return prolly.Map{}, err
+			}
+			vb.PutInt64(0, int64(salt+i))
+			vb.PutString(1, fmt.Sprintf("value-%d-%d-%s", salt, i, strings.Repeat("z", i%90)))
+			vt, err := vb.Build(ctx, ns.Pool())
+			if err != nil {
+				return prolly.Map{}, err
+			}
+			tups = append(tups, kt, vt)
+		}
+		return prolly.NewMapFromTuples(ctx, ns, kd, vd, tups...)
+	}
+	// 1) before the collection: written, referenced by nothing, nothing committed afterwards
+	m1, err := build()
+	if err != nil {
+		e.Rep.Disagree(k, "build map: "+err.Error(), "", "generator")
+		return
+	}
+	x := m1.HashOf()
+	levels := m1.Node().Level() + 1
+	// 2) during the collection: the same value is written again at the yield point(s)
+	rewrites := 0
+	var rewriteErr error
+	types.VerifSetGCYield(func(point string) {
+		if !(k.Writer == "both" || (k.Writer == "old" && point == "oldgen") || (k.Writer == "new" && point == "newgen")) {
+			return
+		}
+		m2, err := build()
+		if err != nil {
+			rewriteErr = err
+			return
+		}
+		if m2.HashOf() != x {
+			rewriteErr = fmt.Errorf("rewritten value has a different address")
+			return
+		}
+		rewrites++
+		e.Rep.Hit("rewrite-at:" + point)
+	})
+	defer types.VerifSetGCYield(nil)
+	gerr := v.gc(r, k)
+	types.VerifSetGCYield(nil)
+	if gerr != nil {
+		e.Rep.Violate("gc-error", "garbage collection failed: "+gerr.Error(), k)
+		return
+	}
+	mode := "default"
+	if k.Full {
+		mode = "full"
+	}
+	e.Rep.Hit(fmt.Sprintf("gc-rewrite:%s:levels%d", mode, levels))
+	e.Rep.Count(fmt.Sprintf("rewrite|%v|%s|%d|%d", k.Full, k.Writer, k.Rows, k.Seed), true)
+	if rewriteErr != nil {
+		e.Rep.Violate("writer-refused", "writing a value while a collection was in a non-finalizing phase failed: "+rewriteErr.Error(), k)
+		return
+	}
+	if rewrites == 0 {
+		e.Rep.Disagree(k, "yield point not reached", "", "rewrite case")
+		return
+	}
+	// 3) after the collection
+	if has, herr := r.DDB.Has(ctx, x); herr != nil || !has {
+		e.Rep.Violate("gc-loses-rewritten-chunk", fmt.Sprintf("value %s (%d tuples, %d levels) was written before the collection and successfully written AGAIN while it ran (%d times), but is absent after it (Has=%v err=%v)", x, k.Rows, levels, rewrites, has, herr), k)
+		return
+	}
+	if serr := r.DDB.SetStatistics(ctx, "main", x); serr != nil {
+		e.Rep.Violate("commit-after-gc-dangling", "committing a reference to a value written during the collection fails after it: "+serr.Error(), k)
+		return
+	}
+	ddb2, rerr := r.Reopen(ctx)
+	if rerr != nil {
+		e.Rep.Violate("reopen-error", "database does not open after GC: "+rerr.Error(), k)
+		return
+	}
+	fp, ferr := wg.Fingerprint(ctx, ddb2)
+	if ferr != nil {
+		e.Rep.Violate("rewritten-value-unreadable", "after GC + commit + reopen the database no longer loads: "+ferr.Error(), k)
+		return
+	}
+	if fp.Counts["stats"] != k.Rows {
+		e.Rep.Violate("rewritten-value-unreadable", fmt.Sprintf("the committed value has %d tuples after reopen, %d were written", fp.Counts["stats"], k.Rows), k)
+		return
+	}
+	cs := wg.ChunkStoreOf(ddb2)
+	root1, _ := cs.Root(ctx)
+	if _, absent, werr := wg.WalkClosure(ctx, cs, []hash.Hash{root1}); werr != nil || len(absent) > 0 {
+		e.Rep.Violate("post-gc-dangling", fmt.Sprintf("after GC + commit: walker closure error=%v, %d absent", werr, len(absent)), k)
+		return
+	}
+	e.Rep.TracesValidated++
+}
+
 func firstDiff(a, b []string) string {
 	sa := map[string]bool{}
 	for _, l := range a {
@@ -432,4 +570,10 @@ func main() {
 		v.run(k)
 	}
 	v.run(kase{Kind: "crafted", Seed: e.Seed*1000 + 777, Rows: 60, Full: true, Archive: 0, Via: "api"})
+	// chunk-store level: a value written before the collection is written again while it runs
+	nr := e.N(4, 12)
+	for i := 0; i < nr; i++ {
+		v.run(kase{Kind: "rewrite", Seed: e.Seed*1000 + 900 + uint64(i), Rows: []int{3, 4000, 40, 12000}[i%4], Full: i%2 == 1,
+			Archive: 0, Via: "api", Writer: []string{"new", "old", "both"}[i%3]})
+	}
 }
